@@ -323,11 +323,16 @@ class DirectObjectAccess:
         return dir(self._obj)
 
     def has_iter(self):
-        try:
-            iter(self._obj)
-            return True
-        except TypeError:
-            return False
+        # Calling iter() would execute a user defined __iter__, so just look
+        # up the protocol methods on the type without executing anything.
+        for name in ('__iter__', '__getitem__'):
+            try:
+                attr, _ = getattr_static(type(self._obj), name)
+            except AttributeError:
+                continue
+            if attr is not None:
+                return True
+        return False
 
     def is_allowed_getattr(self, name, safe=True) -> Tuple[bool, bool, Optional[AccessPath]]:
         # TODO this API is ugly.
